@@ -5,15 +5,14 @@
 (* <<start, end, reported state id, integrity>> in key order.                                      *)
 EXTENDS Integers, Sequences, FiniteSets, TLC, Json
 Trace == ndJsonDeserialize("trace.ndjson")
-PRep == 2
-DRep == 1
 Inf == 1000000
 VARIABLES l, tr, prev, used, bad
 vars == <<l, tr, prev, used, bad>>
 Init == l = 1 /\ tr = 0 /\ prev = <<>> /\ used = {} /\ bad = {} /\ TLCSet(1, 0) /\ TLCSet(2, {})
-CanSync(e) == e.down_p < PRep /\ e.down_d < DRep
-UpPeers(e) == (IF e.down_p < PRep THEN PRep - e.down_p ELSE 0) + (IF e.down_d < DRep THEN DRep - e.down_d ELSE 0)
-HasMajority(e) == UpPeers(e) * 2 > PRep + DRep
+(* the replica layout (primary + dr replicas) is recorded with every event *)
+CanSync(e) == e.down_p < e.prep /\ e.down_d < e.drep
+UpPeers(e) == (IF e.down_p < e.prep THEN e.prep - e.down_p ELSE 0) + (IF e.down_d < e.drep THEN e.drep - e.down_d ELSE 0)
+HasMajority(e) == UpPeers(e) * 2 > e.prep + e.drep
 (* every region, contiguous over the whole key space, has reported integrity under state id `id` *)
 AllInSync(rs, id) == /\ Len(rs) > 0 /\ rs[1][1] = 0 /\ rs[Len(rs)][2] = Inf
                      /\ \A i \in 1..Len(rs) : rs[i][3] = id /\ rs[i][4] /\ (i < Len(rs) => rs[i][2] = rs[i + 1][1])
